@@ -261,6 +261,12 @@ func argTextD(v ssa.Value, d int, seen map[ssa.Value]bool) string {
 		} else if sig := x.Call.Signature(); sig != nil && sig.Recv() != nil && len(x.Call.Args) > 0 {
 			name = recvText(x.Call.Args[0], d, seen) + name
 		}
+		// two constructor calls of one function (`list.New()` twice) are different values
+		if len(core.CallArgs(&x.Call)) == 0 && !x.Call.IsInvoke() {
+			if k := callOrdinal(x); k > 0 {
+				name = fmt.Sprintf("%s#%d", name, k)
+			}
+		}
 		if d >= 2 {
 			return name + "()"
 		}
@@ -665,4 +671,41 @@ func feedsOnlyMessages(v ssa.Value, seen map[ssa.Value]bool) bool {
 func isLoggerName(n string) bool {
 	l := strings.ToLower(n)
 	return strings.Contains(l, "logger") || strings.Contains(l, "logr.") || strings.Contains(l, "klog")
+}
+
+var callOrdCache = map[*ssa.Function]map[*ssa.Call]int{}
+
+// callOrdinal numbers, in dominator preorder, the argument-less static calls of a function that share
+// their callee; 0 when the callee is called once.
+func callOrdinal(c *ssa.Call) int {
+	fn := c.Parent()
+	if fn == nil {
+		return 0
+	}
+	m, ok := callOrdCache[fn]
+	if !ok {
+		m = map[*ssa.Call]int{}
+		byCallee := map[string][]*ssa.Call{}
+		for _, b := range fn.DomPreorder() {
+			for _, in := range b.Instrs {
+				if call, isCall := in.(*ssa.Call); isCall && !call.Call.IsInvoke() && len(core.CallArgs(&call.Call)) == 0 {
+					if sig := call.Call.Signature(); sig != nil && sig.Recv() != nil {
+						continue // methods are told apart by their receiver
+					}
+					cn := core.CalleeName(&call.Call)
+					byCallee[cn] = append(byCallee[cn], call)
+				}
+			}
+		}
+		for _, calls := range byCallee {
+			if len(calls) < 2 {
+				continue
+			}
+			for i, call := range calls {
+				m[call] = i + 1
+			}
+		}
+		callOrdCache[fn] = m
+	}
+	return m[c]
 }
